@@ -1,5 +1,5 @@
 From Clip Require Import base.Geom model.PathUtils model.ZErase.
 Require Import ExtrOcamlBasic.
 Extraction Language OCaml.
-Extraction "m.ml" point_eqb3 set_z trim_collinear_z strip_duplicates_z minkowski_z translate_path_z
+Extraction "m.ml" point_eqb3 set_z do_split_op_z trim_collinear_z strip_duplicates_z minkowski_z translate_path_z
   trim_collinear2 strip_duplicates2 minkowski2 erase mk3.
